@@ -467,4 +467,9 @@ def Consecutive (cur nxt : SegRow) (segs : List SegRow) : Prop :=
 def geneBins (t : List Bin) (c g : String) : List Bin :=
   t.filter (fun b => b.chrom == c && b.gene == g)
 
+/-- the rows of every chromosome are adjacent in the table (what a sorted table satisfies) -/
+def ChromGrouped (t : List Bin) : Prop :=
+  ∀ (i j k : Nat) (bi bj bk : Bin), i ≤ j → j ≤ k → t[i]? = some bi → t[j]? = some bj → t[k]? = some bk →
+    bi.chrom = bk.chrom → bj.chrom = bi.chrom
+
 end CnvVerif.Genes
